@@ -20,7 +20,7 @@ YOUR TASK: produce TWO independent source changes ("mutations", call them {pid}a
 How to work:
   * Read the relevant pandapower source in the worktree to find where the property is implemented. Think about which inputs the existing tests (pandapower/test/...) exercise, and pick a breakage they do not reach.
   * To run code against the worktree: `cd /tmp/mut/{pid} && PYTHONPATH=/tmp/mut/{pid} /venv/bin/python your_script.py` and make the script print pandapower.__file__ once to be sure it imports from the worktree (it must start with /tmp/mut/{pid}).
-  * Tests: during development run only the relevant test sub-directories, e.g. `cd /tmp/mut/{pid} && /venv/bin/python -m pytest -q -p no:cacheprovider -x -n 4 pandapower/test/<subdir>`. When a mutation is final, run the whole suite ONCE with it applied: `cd /tmp/mut/{pid} && /venv/bin/python -m pytest -q -p no:cacheprovider --timeout=900 -n 4 pandapower/test 2>&1 | tail -15` (takes several minutes; the unmodified tree has 1173 passing tests and some skips/xfails/failures that exist without your change too -- only NEW failures matter; if unsure compare with a run of the failing test on the clean tree via `git stash`).
+  * Tests: during development run only the relevant test sub-directories, e.g. `cd /tmp/mut/{pid} && /venv/bin/python -m pytest -q -p no:cacheprovider -x -n 4 pandapower/test/<subdir>`. When a mutation is final, run the whole suite ONCE with it applied: `cd /tmp/mut/{pid} && /venv/bin/python -m pytest -q -p no:cacheprovider --timeout=900 -n 4 pandapower/test 2>&1 | tail -15` (takes several minutes; the unmodified tree has 1173 passing tests and some skips/xfails/failures that exist without your change too -- only NEW failures matter; if unsure compare with a run of the failing test on the clean tree by re-running it in a fresh `git worktree`-independent way: `git diff > /tmp/mutout/my.patch; git checkout -- .; <run test>; git apply /tmp/mutout/my.patch` (never use `git stash`: the stash is shared between worktrees)).
   * For each mutation write into /tmp/mutout/{pid}a/ (resp. /tmp/mutout/{pid}b/):
       - patch.diff  : output of `git -C /tmp/mut/{pid} diff` with only that mutation applied (must apply with `git apply` to a clean checkout),
       - demo.py     : a standalone script (no pytest needed) that exits 0 on the unmodified tree and exits non-zero (failed assertion with a clear message) with the mutation applied; it must import pandapower from PYTHONPATH, use only what is installed, run in under ~60 s, and be deterministic,
